@@ -2,10 +2,11 @@
    Proved per micro-operation: the candidates offered for a single exclusion are exactly the hopefuls at the
    minimum tally (non-fuzzy arithmetics); breakTie picks one of the tied, silently when there is one,
    otherwise logging exactly one 'tie' action that names the tied set and the choice; an empty tie list is
-   the IndexError crash (open finding K3 is that crash).  Sure-loser batches, largest-surplus-first,
+   the IndexError crash -- which the Meek defeat step cannot reach any more (fix F11): for Fixed, Guarded and
+   Rational arithmetic the list it offers is never empty.  Sure-loser batches, largest-surplus-first,
    Scottish prior-stage rule, tie-order independence: values-scope correspondence + oracle (_partial). *)
 From Coq Require Import ZArith List Bool String.
-From Droop Require Import Model.KernelBase Model.Arith Model.State Model.Prims Proofs.Zlike Proofs.Ties Proofs.SortLemmas.
+From Droop Require Import Model.KernelBase Model.Arith Model.State Model.Prims Model.RulesMeek Proofs.Zlike Proofs.Ties Proofs.SortLemmas Proofs.MeekLow.
 Import ListNotations.
 Open Scope Z_scope.
 
@@ -29,3 +30,15 @@ Theorem C07_empty_tie_is_the_indexerror_crash : forall A cfg fmt tied (s : est A
   break_tie A cfg fmt tied s = (s', None) -> tied = [] /\ s' = set_crash s IndexError.
 Proof. exact break_tie_none_crashes. Qed.
 Print Assumptions C07_empty_tie_is_the_indexerror_crash.
+
+(* Meek/Warren/meek-prf defeat step: the candidates "within the surplus of the lowest tally" -- or, when rounding has
+   left the total surplus negative and nobody is, the holders of the lowest tally -- are never an empty list *)
+Theorem C07_meek_tied_list_never_empty : forall A, minlaws A -> forall (s : est A) lows,
+  low_within_surplus A s = Ok lows -> lows <> [].
+Proof. exact low_within_nonempty. Qed.
+Print Assumptions C07_meek_tied_list_never_empty.
+
+Theorem C07_meek_tied_list_arithmetics :
+  (forall p d, minlaws (Fixed p d)) /\ (forall p g d st, 0 <= g -> minlaws (Guarded p g d st)) /\ (forall dp, minlaws (Rational dp)).
+Proof. exact (conj minlaws_fixed (conj minlaws_guarded minlaws_rational)). Qed.
+Print Assumptions C07_meek_tied_list_arithmetics.
